@@ -323,7 +323,8 @@ class FnTr:
         if op in ("&&", "||"):
             ga, _ = self.expr(a, env, BOOL)
             gb, _ = self.expr(b, env, BOOL)
-            return ("app", "andb" if op == "&&" else "orb", [ga, gb]), BOOL
+            # tagged "lazy": the right operand's checked operations are only reached when the left one does not decide
+            return ("app", "andb" if op == "&&" else "orb", [ga, gb], "lazy"), BOOL
         cmp_ops = {"==": "Z.eqb", "!=": None, "<": "Z.ltb", "<=": "Z.leb", ">": "Z.gtb", ">=": "Z.geb"}
         if op in cmp_ops:
             ga, ta = self.expr(a, env, None)
